@@ -448,7 +448,10 @@ func TestVerifStore(t *testing.T) {
 	verifsim.WorkerMain(t, verifsim.Harness{
 		Name:       "store",
 		RunOne:     runStore,
-		PanicProps: []string{"C03", "C04", "C12", "C09", "C10"},
+		// an unrecovered panic is a violation only where the statement says so (C03: "no registry
+		// response ... crashes the server", C10: "never panics ... the server keeps serving"); the
+		// other properties see a dead goroutine only through their own oracles
+		PanicProps: []string{"C03", "C10"},
 		Real: []string{"server/images.go download.go upload.go auth.go modelpath.go manifest.go layer.go create.go model.go routes.go fixblobs.go (instrumented, unmodified logic)",
 			"gin router and handlers (POST /api/pull etc. through router.ServeHTTP)", "net/http client (redirect handling, bodies) over an in-memory RoundTripper", "real files on tmpfs through the vfs pass-through"},
 		Stub: []string{"registry / CDN / auth servers (simRegistry: protocol state + tape-drawn faults)", "TCP/TLS (no sockets)", "process death = freeze + unwind (no power-loss reordering)"},
